@@ -107,6 +107,17 @@ func (p *Proxy) CutAll() {
 	}
 }
 
+// BlackHoleAll makes every live connection swallow traffic in both directions
+// from now on (the sockets stay open); new connections are served normally.
+func (p *Proxy) BlackHoleAll() {
+	p.mu.Lock()
+	for _, c := range p.conns {
+		c.blackhol = true
+	}
+	p.Log = append(p.Log, "black hole on all live connections")
+	p.mu.Unlock()
+}
+
 // Accepted returns the number of connections accepted so far.
 func (p *Proxy) Accepted() int {
 	p.mu.Lock()
